@@ -221,13 +221,13 @@ class Env:
 
 
 # Pinned rejection rules in front of the straight-line body of reb_particle_from_orbit_err (each returns
-# reb_particle_nan()): a==0 (err 15), e==1, e<0, bound/unbound sign mismatch, e*cos(f)<-1, massless primary.
+# reb_particle_nan()): a==0 (err 15), e==1, e<0, bound/unbound sign mismatch, e*cos(f)<-1, primary.m <= TINY.
 # The translated body is the map on the accepted inputs; the Coq theorems carry a<>0, 1-e*e<>0 (or >0), 1+e*cf<>0.
 # Any change of these rules makes the translator fail (re-sync by hand, as done for /repo's a==0 guard).
 FROM_ORBIT_PREFIX = ("if(a==0.){*err=15;returnreb_particle_nan();}"
                      "if(e==1.){*err=1;returnreb_particle_nan();}if(e<0.){*err=2;returnreb_particle_nan();}"
                      "if(e>1.){if(a>0.){*err=3;returnreb_particle_nan();}}else{if(a<0.){*err=4;returnreb_particle_nan();}}"
-                     "if(e*cos(f)<-1.){*err=5;returnreb_particle_nan();}if(primary.m<TINY){*err=6;returnreb_particle_nan();}")
+                     "if(e*cos(f)<-1.){*err=5;returnreb_particle_nan();}if(primary.m<=TINY){*err=6;returnreb_particle_nan();}")
 
 
 def translate(name, params, body, family, direct):
